@@ -175,6 +175,17 @@ class Check(PropertyCheck):
             mb = m.bbox
             out['mask_box'] = [int(mb.ixmin), int(mb.ixmax), int(mb.iymin), int(mb.iymax)]
             out['mask_shape'] = list(m.data.shape)
+            # the boxes handed out are values: combining them with other boxes (the common box of several masks) leaves
+            # the mask's box and the region's box as they were
+            from regions import RegionBoundingBox
+            other = RegionBoundingBox(int(mb.ixmin) - 3, int(mb.ixmax) + 2, int(mb.iymin) - 1, int(mb.iymax) + 4)
+            _ = mb | other
+            _ = mb.union(other)
+            _ = b | other
+            mb2, b2 = m.bbox, reg.bounding_box
+            out['boxes_after_union'] = [[int(mb2.ixmin), int(mb2.ixmax), int(mb2.iymin), int(mb2.iymax)],
+                                        [int(b.ixmin), int(b.ixmax), int(b.iymin), int(b.iymax)],
+                                        [int(b2.ixmin), int(b2.ixmax), int(b2.iymin), int(b2.iymax)]]
         except NotImplementedError:
             out['mask_box'] = None
         except Exception as e:
@@ -242,6 +253,10 @@ class Check(PropertyCheck):
         if real.get('mask_box') is not None:
             if real['mask_box'] != box:
                 bad('mask_box_differs', f'{real["mask_box"]} vs {box}')
+            for bx in real.get('boxes_after_union', []):
+                if bx != box:
+                    bad('box_changed_by_union', f'{bx} vs {box}: a box handed out by the region or its mask was modified by `|` / union()')
+                    break
             if real['mask_shape'] != [box[3] - box[2], box[1] - box[0]]:
                 bad('mask_shape_differs', f'{real["mask_shape"]} vs box {box}')
         return V
